@@ -1,6 +1,7 @@
 import Driver.Graph
 import Driver.Container
 import Driver.Coll
+import Driver.Mw
 /-! `godi_model`: reads the line protocol on stdin, prints one observation per line. -/
 open Driver
 
@@ -8,12 +9,14 @@ structure St where
   g : Godi.Graph.Graph := {}
   p : ContD.DSt := {}
   coll : CollD.St := {}
+  mw : MwD.MwSt := {}
 
 def stepLine (s : St) (line : String) : St × String :=
   match words line with
   | "g" :: rest => let (g, o) := GraphD.step s.g rest; ({ s with g := g }, o)
   | "p" :: rest => let (p, o) := ContD.step s.p rest; ({ s with p := p }, o)
   | "c" :: rest => let (c, o) := CollD.step s.coll rest; ({ s with coll := c }, o)
+  | "mw" :: rest => let (m, o) := MwD.step s.mw rest; ({ s with mw := m }, o)
   | "#" :: _ => (s, "#")
   | [] => (s, "")
   | _ => (s, "bad-op")
